@@ -100,8 +100,10 @@ func c04main(c *Ctx) {
 		desc0 := randomTimestampOptions(r, lg)
 		// a logger is not always in JSON mode from its first record: the same object may have logged in another
 		// format (or in JSON already) before the record that is judged
-		warm := r.Intn(5)
+		warm := r.Intn(6)
 		switch warm {
+		case 5:
+			doomedRecord(FJSON, w)
 		case 2:
 			lg.SetColorMode(false)
 			lg.Info("warm-up record in logfmt", "w", 1)
@@ -116,8 +118,8 @@ func c04main(c *Ctx) {
 		evs := capture(log, func() { lg.LogAttrs(bg, cs.lvl, cs.msg, anyAttrs(cs.kvs)...) })
 		desc := describe(FJSON, cs.name, cs.msg, cs.lvl, cs.caller, cs.kvs)
 		desc["logger_timestamp_options"] = desc0
-		desc["other_flags"], desc["same_logger_logged_before_in"] = otherFlags, []string{"-", "-", "logfmt", "color", "json"}[warm]
-		c.R.Distinct("same_logger_logged_before_in", []string{"-", "-", "logfmt", "color", "json"}[warm])
+		desc["other_flags"], desc["same_logger_logged_before_in"] = otherFlags, []string{"-", "-", "logfmt", "color", "json", "a record that panicked while being formatted (recovered)"}[warm]
+		c.R.Distinct("same_logger_logged_before_in", []string{"-", "-", "logfmt", "color", "json", "a record that panicked while being formatted (recovered)"}[warm])
 		c.R.Add("write_events", int64(len(evs)))
 		if len(evs) != 1 || evs[0].Kind != mon.EvWrite {
 			c.R.Violation(idx, "one-write", "C04/one-write", fmt.Sprintf("expected exactly one Write, saw %s", fmtEvents(evs)), desc)
